@@ -196,6 +196,100 @@ def check_iterative_owner(ctx, an, f, g, reach, pname):
     return True
 
 
+def gp_scenarios(an, model, gp):
+    """{(method, 'available'|'missing'): True / False / None}: does _get_provider, specialised for the scenario, return
+    (the provider class of the expected method, the expected method name)?  None = a leaf the evaluator does not read."""
+    from engine.specialize import Spec
+    mparam = gp.positional_params[1]
+    out = {}
+    for m in ("aes", "xor", "best"):
+        for avail in (True, False):
+            if m == "aes" and not avail:
+                continue                      # asking for aes without the library: the provider's constructor refuses
+            want = m if m != "best" else ("aes" if avail else "xor")
+
+            def val(x, node, sp):
+                """the string a name / constant stands for under the scenario, or None"""
+                if isinstance(x, ast.Constant):
+                    return x.value
+                if isinstance(x, ast.Name):
+                    srcs = sp.sources(x, node) if sp.rd is not None else []
+                    vals = set()
+                    for k, pl in srcs:
+                        if k == "param" and pl == mparam:
+                            vals.add(m)
+                        elif k == "expr" and isinstance(pl, ast.Constant):
+                            vals.add(pl.value)
+                        else:
+                            return None
+                    if len(vals) == 1:
+                        return vals.pop()
+                return None
+
+            def decide(e, node, sp, m=m, avail=avail):
+                if isinstance(e, ast.Attribute) and isinstance(e.value, ast.Name) and e.value.id == gp.self_name and "key" in e.attr:
+                    return True
+                if isinstance(e, ast.Name) and e.id == "AES_AVAILABLE" or isinstance(e, ast.Attribute) and e.attr == "AES_AVAILABLE":
+                    return avail
+                if isinstance(e, ast.Compare) and len(e.ops) == 1:
+                    lv = val(e.left, node, sp)
+                    if not isinstance(lv, str):
+                        return None
+                    r, op = e.comparators[0], e.ops[0]
+                    try:
+                        cv = model.const_eval(gp.module, r, gp.cls)
+                    except (ValueError, KeyError):
+                        cv = val(r, node, sp)
+                    if isinstance(cv, str) and isinstance(op, (ast.Eq, ast.NotEq)):
+                        return (lv == cv) == isinstance(op, ast.Eq)
+                    if isinstance(cv, (tuple, list, set, frozenset, dict)) and isinstance(op, (ast.In, ast.NotIn)):
+                        return (lv in cv) == isinstance(op, ast.In)
+                return None
+            sp = Spec(an, gp, decide)
+            rets = sp.normal_returns()
+            res = True if rets and not sp.falls_through() else False
+            for r in rets:
+                v = r.ast.value
+                comps = []
+                if isinstance(v, ast.Tuple) and len(v.elts) == 2:
+                    comps = [(v.elts[0], v.elts[1], r)]
+                elif isinstance(v, ast.Name):
+                    for k, pl in sp.sources(v, r):
+                        if k == "expr" and isinstance(pl, ast.Tuple) and len(pl.elts) == 2:
+                            comps.append((pl.elts[0], pl.elts[1], sp.where.get(id(pl)) or r))
+                        else:
+                            comps = []
+                            break
+                if not comps:
+                    res = None if res is not False else res
+                    continue
+                for pe, me, at in comps:
+                    got = val(me, at, sp)
+                    if got is None:
+                        res = None if res is not False else res
+                        continue
+                    if got != want:
+                        res = False
+                        continue
+                    classes = set()
+                    for k, pl in sp.sources(pe, at):
+                        if k == "expr" and isinstance(pl, ast.Call):
+                            f = pl.func
+                            if isinstance(f, ast.Name):
+                                fs = sp.sources(f, sp.where.get(id(pl)) or at)
+                                if len(fs) == 1 and fs[0][0] == "expr" and isinstance(fs[0][1], (ast.Name, ast.Attribute)):
+                                    f = fs[0][1]
+                            classes.add(ast.unparse(f).split(".")[-1].lower())
+                        else:
+                            classes.add(None)
+                    if None in classes or not classes:
+                        res = None if res is not False else res
+                    elif not all(want in c for c in classes):
+                        res = False
+            out[(m, "available" if avail else "missing")] = res
+    return out
+
+
 def check(ctx):
     an, model = ctx.an, ctx.model
     from .c02 import check_container_items_encoded
@@ -271,6 +365,20 @@ def check(ctx):
             lit_of[id(r)] = m_
         else:
             ok = False
+    # the same question asked per scenario (requested method x AES availability) on the specialised function: reads an if/elif
+    # chain that assigns a local and returns once, a dispatch table, an early-return chain alike
+    scen = gp_scenarios(an, model, gp)
+    scen_ok = all(v is True for v in scen.values())
+    scen_bad = sorted(k for k, v in scen.items() if v is False)
+    if not ok and scen_ok:
+        ok = True
+        lits = ["aes", "xor"]
+    if scen_bad:
+        ctx.ob("method.scenario", gp, "requested %s / AES %s" % scen_bad[0], False,
+               "for method=%r with AES %s _get_provider does not return the matching (provider, concrete method)" % scen_bad[0])
+    else:
+        ctx.ob("method.scenario", gp, "requested method x AES availability", True,
+               "%d/%d scenarios return the matching provider and the concrete method name" % (sum(v is True for v in scen.values()), len(scen)))
     ctx.ob("method.concrete", gp, "every returned (provider, method) names a concrete method", ok,
            "returns only %s and cannot fall through" % sorted(set(lits)) if ok else
            "_get_provider can return a non-concrete method (or None): the recorded method may be 'best' or missing")
@@ -396,7 +504,7 @@ def check(ctx):
     from . import c08
     sub = type(ctx)(ctx.pid, ctx.an, ctx.tier)
     c08.check(sub)
-    ctx.obligations.extend(o for o in sub.obligations if o.rule.split(".", 1)[1].split(".")[0] in ("iv", "agree", "xor"))
+    ctx.obligations.extend(o for o in sub.obligations if o.rule.split(".", 1)[1].split(".")[0] in ("iv", "agree", "xor", "verbatim", "generated-is-written-is-returned"))     # ... and "the same key file" in a new session holds the same bytes
 
     # ---------------------------------------------------------------- C03.7 a named key file survives the replacement of its owner
     # Loading a document builds a *new* sub-configuration for every nested map and stores it over the old one.  If the old one
